@@ -131,6 +131,7 @@ func RunCrash(p *CrashProgram) (lines, impl []string, mids []MidImage) {
 		}
 	}()
 	env := NewEnv("leveldb-disk", dir)
+	p.KilledAt = nil
 	cur := -1
 	armed := false
 	killAt := map[int]int{}
